@@ -415,3 +415,43 @@ Proof.
   - apply Forall_forall. intros id Hin. apply marked_mark_all_in.
     apply in_app_iff in Hin as [Hin|Hin]; apply in_app_iff; [left; now apply (log_ids_incl hi root)|now right].
 Qed.
+
+(* ---------- recorded entries are never rewritten ---------- *)
+(* what the calls of a program made observable is a prefix of what they and any later operations
+   (further calls from the same logger or any other, further derivations) make observable: the
+   end-of-history view of an entry is the entry *)
+Lemma run_app root : forall a b s,
+  run root s (a ++ b) = let '(s1, e1) := run root s a in let '(s2, e2) := run root s1 b in (s2, e1 ++ e2).
+Proof.
+  induction a as [|o r IH]; intros b s; cbn [app run].
+  - destruct (run root s b). reflexivity.
+  - destruct (step_op root s o) as [s1 e1]. rewrite IH. destruct (run root s1 r) as [s2 e2].
+    destruct (run root s2 b) as [s3 e3]. now rewrite app_assoc.
+Qed.
+Lemma run_events_prefix c ops extra : exists rest, run_events c (ops ++ extra) = run_events c ops ++ rest.
+Proof.
+  unfold run_events. rewrite run_app. destruct (run (root_of c) (init c) ops) as [s1 e1].
+  destruct (run (root_of c) s1 extra) as [s2 e2]. now exists e2.
+Qed.
+Lemma spec_events_prefix c ops extra : exists rest, spec_events c (ops ++ extra) = spec_events c ops ++ rest.
+Proof.
+  unfold spec_events. rewrite srun_app. destruct (srun (root_of c) (sinit c) ops) as [s1 e1].
+  destruct (srun (root_of c) s1 extra) as [s2 e2]. now exists e2.
+Qed.
+Lemma firstn_map_prefix {A B} (f : A -> B) (l rest : list A) : firstn (length l) (map f (l ++ rest)) = map f l.
+Proof.
+  rewrite map_app. replace (length l) with (length (map f l)) by apply map_length.
+  rewrite firstn_app, Nat.sub_diag, firstn_all. cbn [firstn]. apply app_nil_r.
+Qed.
+(* the end-of-history view (Model.v [enc_end]) of the calls of [ops], taken after any further
+   operations [extra], is their view taken at once -- in the operational model and in the specification *)
+Theorem end_view_stable c ops extra nk :
+  firstn (length (run_events c ops)) (map (enc_log_end nk) (run_events c (ops ++ extra))) = map (enc_log_end nk) (run_events c ops) /\
+  firstn (length (spec_events c ops)) (map (enc_log_end nk) (spec_events c (ops ++ extra))) = map (enc_log_end nk) (spec_events c ops).
+Proof.
+  destruct (run_events_prefix c ops extra) as [r1 H1]. destruct (spec_events_prefix c ops extra) as [r2 H2].
+  rewrite H1, H2. split; apply firstn_map_prefix.
+Qed.
+(* and that view is the sink columns of the per-call observation (its aux column dropped) *)
+Lemma enc_log_end_tail nk evs : enc_log nk evs = SL (SL (map enc_ev (filter is_aux evs)) :: sx_l (enc_log_end nk evs)).
+Proof. reflexivity. Qed.
